@@ -283,7 +283,14 @@ static std::string gen_name(FuzzedDataProvider& fdp, Kind k) {
 
 static std::string gen_sig(FuzzedDataProvider& fdp) {
   std::string s;
-  int mode = fdp.ConsumeIntegralInRange<int>(0, 5);
+  int mode = fdp.ConsumeIntegralInRange<int>(0, 6);
+  if (mode == 6) {  // bracket structure: well-nested containers, then swap two characters / flip a bracket kind
+    static const char* blocks[] = {"(ii)", "a{ss}", "(a{ii}i)", "a{s(ii)}", "a(ii)", "(a{s(ii)})", "a{sa{ii}}", "((i)a{ss})", "(ia{ii})", "a{i(a{ss})}"};
+    int n = fdp.ConsumeIntegralInRange<int>(1, 3); for (int i = 0; i < n; i++) s += blocks[fdp.ConsumeIntegralInRange<size_t>(0, 9)];
+    int sw = fdp.ConsumeIntegralInRange<int>(0, 2);
+    for (int i = 0; i < sw; i++) { size_t a = fdp.ConsumeIntegralInRange<size_t>(0, s.size() - 1), b = fdp.ConsumeIntegralInRange<size_t>(0, s.size() - 1); std::swap(s[a], s[b]); }
+    return s;
+  }
   if (mode == 0) {  // nested arrays around 32
     int n = fdp.ConsumeIntegralInRange<int>(29, 35); s.assign(n, 'a'); s += fdp.ConsumeBool() ? "i" : "(s)";
   } else if (mode == 1) {  // nested structs around 32
